@@ -1,11 +1,12 @@
 """C18 — retrain=False is the identity; retraining equals a fresh component trained on the new data; pipelines train each part once."""
 from __future__ import annotations
-import pickle, random
+import os, pickle, random
+os.environ.setdefault("TQDM_DISABLE", "1")          # the implicit library draws progress bars on stderr
 import numpy as np
 from ..core import CheckSpec, Outcome, Lean
 
-COMPS = ["bias", "pop", "known", "cand", "hist", "iknn", "uknn", "als", "ials", "funk", "bsvd", "flex-e", "flex-i", "pipeline"]
-SKIP_ATTRS = ("_timer", "logger", "_log", "config")
+COMPS = ["bias", "pop", "known", "cand", "hist", "iknn", "uknn", "als", "ials", "funk", "bsvd", "flex-e", "flex-i", "imp-als", "imp-bpr", "pipeline"]
+SKIP_ATTRS = ("_timer", "logger", "_log", "config", "delegate")          # (`delegate`: the third-party model object of the implicit bridge; its embeddings are copied onto the component)
 
 def _make(name):
     from lenskit.basic import BiasScorer, PopScorer, UnratedTrainingItemsCandidateSelector, UserTrainingHistoryLookup
@@ -18,6 +19,8 @@ def _make(name):
     return {"bias": lambda: BiasScorer(damping=2), "pop": lambda: PopScorer(), "known": lambda: KnownRatingScorer(), "cand": lambda: UnratedTrainingItemsCandidateSelector(),
             "hist": lambda: UserTrainingHistoryLookup(), "iknn": lambda: ItemKNNScorer(max_nbrs=3, min_nbrs=1), "uknn": lambda: UserKNNScorer(max_nbrs=3, min_nbrs=1),
             "als": lambda: BiasedMFScorer(embedding_size=3, epochs=2), "ials": lambda: ImplicitMFScorer(embedding_size=3, epochs=2), "funk": lambda: FunkSVDScorer(features=2, epochs=2),
+            "imp-als": lambda: __import__("lenskit.implicit", fromlist=["ALS"]).ALS(factors=4, iterations=2, random_state=42, num_threads=1, use_gpu=False),
+            "imp-bpr": lambda: __import__("lenskit.implicit", fromlist=["BPR"]).BPR(factors=4, iterations=3, random_state=42, num_threads=1, use_gpu=False),
             "bsvd": lambda: BiasedSVDScorer(embedding_size=2), "flex-e": lambda: FlexMFExplicitScorer(embedding_size=2, epochs=1), "flex-i": lambda: FlexMFImplicitScorer(embedding_size=2, epochs=1)}[name]()
 
 import torch
@@ -49,14 +52,17 @@ def gen(rng: random.Random, tier: str):
     reps = {"quick": 1, "thorough": 80}[tier]
     for _ in range(reps):
         for name in COMPS:
-            yield {"comp": name, "seed": rng.randrange(10**6), "steps": [rng.choice(["retrain", "skip", "retrain", "skip"]) for _ in range(rng.randint(2, 3))]}
+            yield {"comp": name, "seed": rng.randrange(10**6), "steps": [rng.choice(["retrain", "skip", "retrain", "skip"]) for _ in range(rng.randint(2, 3))],
+                   "same_shape": name.startswith("imp-") or rng.random() < 0.4}
     for _ in range({"quick": 12, "thorough": 1500}[tier]):
         yield {"comp": "pipeline", "seed": rng.randrange(10**6), "steps": []}
 
-def _data(rnd, u0, nu, i0, ni):
+def _data(rnd, u0, nu, i0, ni, full=False):
     import pandas as pd
     from lenskit.data import from_interactions_df
-    rows = [(u0 + u, i0 + i, float(rnd.choice([1, 2, 3, 4, 5]))) for u in range(nu) for i in range(ni) if rnd.random() < 0.5]
+    pairs = {(u, i) for u in range(nu) for i in range(ni) if rnd.random() < 0.5}
+    if full: pairs |= {(u, u % ni) for u in range(nu)} | {(i % nu, i) for i in range(ni)}          # every user and every item occurs: the shape is exactly nu × ni
+    rows = [(u0 + u, i0 + i, float(rnd.choice([1, 2, 3, 4, 5]))) for u, i in sorted(pairs)]
     return from_interactions_df(pd.DataFrame(rows, columns=["user_id", "item_id", "rating"]))
 
 def run(case: dict, lean: Lean) -> Outcome:
@@ -114,7 +120,11 @@ def run(case: dict, lean: Lean) -> Outcome:
             if len(c.seen) != len(msteps): failed.append(f"component c{k} saw {len(c.seen)} training calls, the pipeline was trained {len(msteps)} times")
             elif [r for r, _ in c.seen[1:]] != [rt for rt, _ in more]: failed.append(f"component c{k}: the retrain flag did not reach the component as given: {[r for r, _ in c.seen[1:]]} vs {[rt for rt, _ in more]}")
         return Outcome(not failed, not failed, tuple(classes_p), {"failed": failed}, None)
-    d = [_data(rnd, 100, 10, 1000, 9), _data(rnd, 105, 8, 1004, 11), _data(rnd, 90, 7, 990, 8)]
+    if case.get("same_shape"):
+        # other users, other items, the same numbers of both: nothing about the shapes tells a component that the data changed
+        d = [_data(rnd, 100, 9, 1000, 8, full=True), _data(rnd, 300, 9, 2000, 8, full=True), _data(rnd, 500, 9, 3000, 8, full=True)]
+        classes.add("datasets of one shape")
+    else: d = [_data(rnd, 100, 10, 1000, 9), _data(rnd, 105, 8, 1004, 11), _data(rnd, 90, 7, 990, 8)]
     a = _make(case["comp"]); cur = 0; a.train(d[0], TrainingOptions(rng=5)); state = snap(a)
     # the guard model: which dataset the component's state must come from after every step
     msteps = [[0, True]]; c0 = 0
